@@ -66,7 +66,7 @@ PROPS = {
     },
     "C07": {
         "lean": "Props.C07",
-        "domains": [{"name": "sched"}],
+        "domains": [{"name": "sched", "env": {"VERIF_SCHED_HANG": "1"}}],
         "trusted": ["the verif-tagged event-log hooks in /repo record acquire-type events after the slot is really taken and release-type "
                     "events before it is really given back, so the slot count read off the log never exceeds the real one",
                     "dedup keys identify the task (GetHash): assumption `KeysByTask` of the liveness theorems"],
@@ -364,7 +364,32 @@ def _c11_env_cache(m):
     return all(pool[i] in tainted for i in range(len(pool)) if a[i] != b[i])
 
 
+def _sched_dedup_cycle(case):
+    ts = case.get("tasks") or []
+    adj = {i: [d["task"] for d in (t.get("deps") or [])] + [c["call"] for c in (t.get("cmds") or []) if c.get("call", -1) >= 0] for i, t in enumerate(ts)}
+    def reach(a, b):
+        seen, st = set(), list(adj.get(a, []))
+        while st:
+            x = st.pop()
+            if x == b:
+                return True
+            if x in seen:
+                continue
+            seen.add(x); st += adj.get(x, [])
+        return False
+    return any(t.get("run") != "always" and reach(i, i) for i, t in enumerate(ts))
+
+
+def _c07_once_cycle(m):
+    """C07-once-cycle-deadlocks: a reference cycle through a run: once / when_changed task never ends: the inner reference
+    waits for the execution that is its own ancestor.  Narrow: the run hung, the model confirms the reached configuration
+    accepts no label (deadlock), and the program has a cycle through a deduplicated task."""
+    return (m.get("domain") == "sched" and m["impl"] == "hang" and m["model"].startswith("deadlock")
+            and _sched_dedup_cycle(m.get("case") or {}))
+
+
 FINDING_PREDICATES = {
+    "C07-once-cycle-deadlocks": _c07_once_cycle,
     "C11-dynamic-cache-ignores-env": _c11_env_cache,
     "C19-cli-values-are-templated": _c19_values_templated,
     "C19-no-value-text-deleted": _c19_no_value_deleted,
